@@ -1,6 +1,8 @@
 #!/usr/bin/env python3
 """Audit of the Lean side, run by every check:
-  * `lake build` of the whole library (all theorems re-elaborated when a source changed),
+  * `lake build` of the Props modules the property rests on, with everything they import, and of the
+    judges (re-elaborated when a source or the regenerated Generated.lean changed; the setup command
+    builds the whole library),
   * grep for constructs that would weaken a proof,
   * `#print axioms` for every property theorem of the requested Props modules.
 Results are cached on the hash of all Lean sources (the .olean files are what lake checks;
@@ -63,7 +65,7 @@ def audit(modules, recheck=False):
     recheck: also run leanchecker (independent re-check of the compiled .olean) on every Props module"""
     res = dict(ok=True, forbidden=[], theorems={}, bad=[], build_ok=True, log='', rechecked=[], recheck_failed=[])
     try:
-        build.build_lean(full=True)
+        build.build_lean(full=[m for m in modules if os.path.exists(os.path.join(LEAN, 'Yaep', 'Props', m + '.lean'))])
     except build.BuildError as e:
         res.update(ok=False, build_ok=False, log=e.log)
         return res
@@ -91,7 +93,8 @@ def audit(modules, recheck=False):
             names += theorems_of(m)
         scratch = os.path.join(build.WORK, 'audit-%d.lean' % os.getpid())
         with open(scratch, 'w') as f:
-            f.write('import Yaep\n')
+            for m in modules:
+                if os.path.exists(os.path.join(LEAN, 'Yaep', 'Props', m + '.lean')): f.write('import Yaep.Props.%s\n' % m)
             for n in names:
                 f.write('#print axioms %s\n' % n)
         p = subprocess.run(['lake', 'env', 'lean', scratch], cwd=LEAN, stdout=subprocess.PIPE, stderr=subprocess.STDOUT, text=True)
